@@ -43,8 +43,10 @@ typedef struct SimKnobs {
     int malloc_junk;      /* 0 off, else fill byte seed for allocator seam */
     uint64_t max_steps;   /* scheduling step budget for the run */
     uint64_t max_blocks;  /* basic-block budget for the run (fuel) */
+    uint64_t max_sim_us;  /* stop (as quiescent) when only timers beyond this simulated time remain; 0 = no cap */
 } SimKnobs;
 extern SimKnobs K;
+extern bool sim_time_capped;
 extern int sim_stack_junk;   /* -1 off, else byte used to pre-fill the top 2 MiB of every new task stack */
 
 /* ---------------- images ---------------- */
